@@ -207,6 +207,11 @@ Step ==
        [] OTHER -> UNCHANGED <<now, cs, F, fired, reqs, cnt, hs, accSeen, early, v>>
 
 Done == l = Len(Ev) + 1
-Report == Done => PrintT(<<"VERDICT", tid, TRUE, v>>)
+\* negative configurations (C17: components must be distinct markets that declare outstanding shares): setup must refuse them
+Final == IF Hd.neg = "" THEN v
+         ELSE LET refused == \E i \in 1..Len(Ev) : Ev[i].k = "abort" /\ Ev[i].phase = "setup"
+                  started == \E i \in 1..Len(Ev) : Ev[i].k = "init" IN
+              [v EXCEPT !.C17 = IF @ # "ok" THEN @ ELSE IF started \/ ~refused THEN "C17:validation-" \o Hd.neg \o "-accepted@0" ELSE "ok"]
+Report == Done => PrintT(<<"VERDICT", tid, TRUE, Final>>)
 Spec == Init /\ [][Step]_tvars
 =============================================================================
